@@ -48,43 +48,47 @@ def run(ctx, rep):
             if other in worlds:
                 n_rt += check_runtimes(cfg, w, other, worlds[other], rep)
     rep.floor("runtime_pairs", n_rt, 50, ctx.tier)
-    # the stream adaptors (Read::read / poll_read of readers and linkers) are written per runtime with different buffer
-    # types (&mut [u8] vs tokio's ReadBuf); each is compared with ONE oracle — "the checker is fed exactly the bytes the
-    # inner read just delivered" (C01 R3, C19 b) — which forces the sync, async-std and tokio copies to agree
+    # Operations whose copies are each compared with ONE decision-level oracle elsewhere — stream readers (C01 R3: the checker is
+    # fed exactly the bytes the inner read delivered), bucket readers (C06: which lines are records), lookups (C05 b: which
+    # record wins), commits (C08: what is rejected). A copy that deviates from the oracle while a sibling does not (or deviates
+    # differently) is not equivalent to that sibling: reported here. Copies that all deviate in the same way are still
+    # equivalent to each other — that is the oracle property's finding, not this one's.
     from ..framework import Report
-    from . import c01
-    from .c01 import reader_types
+    from . import c01, c05, c06, c08
+    from .c01 import reader_types, find_fns
     from ..world import strip_refs as _sr
     for cfg, w in worlds.items():
+        prog = w.prog
         base, wrap = reader_types(w)
-        sub = Report("C01")
-        for lf in w.prog.fns.values():
-            o = lf.outer
-            if o.name in ("read", "poll_read") and _sr(o.impl_self or "") in base and o.impl_trait:
-                c01.check_stream_impl(cfg, w, sub, lf)
-        for (c_, rule, k, desc, ok) in sub.obligations:
-            if ok:
-                rep.ob(cfg, "oracle/" + rule, k, desc)
-        for k, v in sub.violations.items():
-            rep.violation("oracle:%s" % k, "this flavour's stream reader deviates from the oracle its siblings satisfy — " + v.msg, loc=v.loc, config=cfg,
-                          rule="oracle/" + (v.rule or ""))
-        # the same holds for the three operations whose copies are compared with a decision-level oracle elsewhere: bucket
-        # readers (C06: which lines are records), lookups (C05 b: which record wins), commits (C08: what is rejected). A copy
-        # that deviates from the oracle deviates from its siblings, so the deviation is a C12 finding too.
-        from . import c05, c06, c08
-        from .c01 import find_fns
-        for mod, tag, run_ in (
-                (c06, "C06", lambda sub_: [c06.check_reader(cfg, w, sub_, w.prog.fns[p_]) for p_ in w.roles.bucket_readers]),
-                (c05, "C05", lambda sub_: [c05.check_find(cfg, w, sub_, w.prog.fns[p_]) for p_ in sorted(find_fns(w))]),
-                (c08, "C08", lambda sub_: [c08.check_commit(cfg, w, sub_, w.prog.fns[p_]) for p_ in w.roles.commits])):
-            sub = Report(tag)
-            run_(sub)
-            for (c_, rule, k, desc, ok) in sub.obligations:
-                if ok:
-                    rep.ob(cfg, "oracle-%s/%s" % (tag, rule), k, desc)
-            for k, v in sub.violations.items():
-                rep.violation("oracle-%s:%s" % (tag, k), "this copy deviates from the oracle its sibling flavours satisfy — " + v.msg, loc=v.loc,
-                              config=cfg, rule="oracle-%s/%s" % (tag, v.rule or ""), witness=v.witness)
+        groups = []
+        streams = [lf for lf in prog.fns.values() if lf.outer.name in ("read", "poll_read") and _sr(lf.outer.impl_self or "") in base and lf.outer.impl_trait]
+        groups.append(("C01", "stream reader", streams, lambda sub_, lf_: c01.check_stream_impl(cfg, w, sub_, lf_)))
+        groups.append(("C06", "bucket reader", [prog.fns[p_] for p_ in w.roles.bucket_readers], lambda sub_, lf_: c06.check_reader(cfg, w, sub_, lf_)))
+        groups.append(("C05", "lookup", [prog.fns[p_] for p_ in sorted(find_fns(w))], lambda sub_, lf_: c05.check_find(cfg, w, sub_, lf_)))
+        fam = {}
+        for p_ in w.roles.commits:
+            fam.setdefault(p_.split("::")[0], []).append(prog.fns[p_])
+        for k_, fs_ in sorted(fam.items()):
+            groups.append(("C08", "%s commit" % k_, fs_, lambda sub_, lf_: c08.check_commit(cfg, w, sub_, lf_)))
+        for tag, what, fns_, run_ in groups:
+            per = {}
+            for lf_ in fns_:
+                sub = Report(tag)
+                run_(sub, lf_)
+                per[lf_.path] = sub
+            sigs = {p_: frozenset(v.rule for v in sb.violations.values()) for p_, sb in per.items()}
+            uniform = len(set(sigs.values())) <= 1
+            for p_, sb in per.items():
+                for (c_, rule, k, desc, ok) in sb.obligations:
+                    if ok:
+                        rep.ob(cfg, "oracle-%s/%s" % (tag, rule), k, desc)
+                if uniform:
+                    if sb.violations:
+                        rep.ob(cfg, "oracle-%s/uniform-deviation" % tag, short(p_), "all %s copies of this configuration deviate from the oracle in the same way (reported under %s)" % (what, tag))
+                    continue
+                for k, v in sb.violations.items():
+                    rep.violation("oracle-%s:%s" % (tag, k), "this %s deviates from the oracle while a sibling copy does not (or deviates differently) — %s" % (what, v.msg),
+                                  loc=v.loc, config=cfg, rule="oracle-%s/%s" % (tag, v.rule or ""), witness=v.witness)
     return rep
 
 
